@@ -8,62 +8,62 @@ TB = ("Trusted: Coq 8.16.1 kernel (full .vo build, vm_compute, no native_compute
 
 META = {
  "C01": dict(
-  thm="Theorems (coq/Properties/C01.v): the encoder models followed by the reference decoders / parser models return the image of the stream's value for every well-formed tree (see the file for which formats are fully proved and which statements are `_partial`).",
+  thm="Theorems (coq/Properties/C01.v): C01_cbor, C01_cbor_stream - for every well-formed tree the CBOR encoder model's output, fed to the parser model in ANY chunking, is accepted with a well-formed stream of the same value (composition of C07, C05, C02). For UBJSON and JSON the two halves are proved separately (encoder vs reference decoder in C07, parser vs reference decoder in C06/C04); their composition is being added.",
   tie="Run: generated well-formed streams (all scalar kinds, width boundaries, float bit patterns, byte strings, announced/unknown lengths, extended events) x encoder options are encoded and parsed back by /repo; the extracted models must produce the same bytes and events (correspondence) and the decoded value must equal the format image of the encoded value (direct oracle).",
   note="Floats in JSON go through strconv, an oracle of the model (Go's text is passed per case). ",
   technique="Coq proof (encoder/decoder round-trip by induction over trees) + extracted-model correspondence + direct value oracle"),
  "C02": dict(
-  thm="Theorems (coq/Properties/C02.v): on the parser models the events and the accept/reject verdict of any two chunkings of the same bytes agree, and Write*+end agrees with the whole-buffer Parse (see the file for formats covered).",
+  thm="Theorems (coq/Properties/C02.v): for all three parser models, any two chunkings of the same bytes (and whole-buffer Parse vs Write*+end) give IDENTICAL events and verdict, for every visitor-failure index: C02_cbor_chunks/entry/write_split, C02_json_chunks/entry (both unconditional), C02_ubj_chunks/entry (whenever both runs return, which C03 guarantees outside finding F2).",
   tie="Run: every subset of cut positions of short documents (<= 9 bytes quick, <= 12 thorough; valid, truncated and mutated ones), as Write*+end and through a scripted reader, plus random chunkings (single bytes, empty writes) of longer documents, on /repo and on the extracted models; any run that differs from the whole-buffer run is a violation.",
   note="",
   technique="Coq proof (split lemmas for the token collectors, induction over chunk lists) + exhaustive cut-set enumeration on /repo and model"),
  "C03": dict(
-  thm="Theorems (coq/Properties/C03.v): the parser models return Ok (events, verdict) - never Panic, never OutOfFuel (the fuel bound is linear in the input) - for all byte strings, chunkings and visitor-failure indices; retained state is bounded by the bytes received; input ending inside a value is an error (see the file for formats covered).",
+  thm="Theorems (coq/Properties/C03.v): CBOR and JSON parser models never Panic and never run out of their linear fuel, for all bytes, chunkings and visitor-failure indices (C03_cbor_chunks_total, C03_cbor_parse_total, C03_json_*_total, C03_json_unquote_safe), retained state is linear in the bytes received (C03_*_space), truncated CBOR input is an error; UBJSON: C03_ubj_no_panic unconditional, C03_ubj_chunks_total under a syntactic guard excluding finding F2, which is proved real (C03_ubj_zero_typed_refuted). The CBOR pull decoder is total (C18_cbor_next_total).",
   tie="Run: random bytes, bit-flips, truncations, unknown markers and length fields up to 2^63-1/2^64-1 in every chunking through Parse, ParseString, Write, ParseReader and the pull decoders of /repo under a 3 s deadline, recover and ulimit -v; outcome must equal the model's, a reference-truncated input must not be accepted.",
   note="One recorded finding (UBJSON typed containers of zero-size elements, known-findings.txt). ",
   technique="Coq proof (reachable-state invariant excluding every panic site, linear fuel bound) + guarded differential runs"),
  "C04": dict(
-  thm="Theorems (coq/Properties/C04.v): see the file; the JSON lexing functions of the model (unquote, number classification/conversion) against their RFC 8259 meaning.",
+  thm="Theorems (coq/Properties/C04.v): Json/Spec.v is a reference decoder written from RFC 8259 (validated against encoding/json on every run); C04_accept: whenever it accepts a text with value v the parser model accepts it with a well-formed stream of exactly v (all escapes, surrogates, 64-bit boundary integers, floats through the same ParseFloat oracle); C04_accept_stream, C04_number (never a different number), C04_unquote. The reject direction is decided by the run-time part.",
   tie="Run: generated RFC 8259 texts (all escapes, surrogate pairs and lone surrogates followed by any UTF-8, 64-bit boundary integers, fractions/exponents, whitespace) and grammar-violating token sequences: /repo's parser events vs Go's encoding/json (UseNumber) as independent reference, and vs the extracted parser model.",
   note="The reference decoder for JSON lives on the Go side (encoding/json), not in Coq. ",
   technique="Coq proof (lexing lemmas) + reference-decoder oracle + extracted-model correspondence"),
  "C05": dict(
-  thm="Theorems (coq/Properties/C05.v): whenever the RFC 7049 reference decoder (Cbor/Spec.v) accepts an item of the subset, the parser model accepts it and its events form a well-formed stream with exactly that value; unsupported items are refused (see the file for what is proved and what is `_partial`).",
+  thm="Theorems (coq/Properties/C05.v): C05_accept, C05_refuse, C05_malformed, C05_accept_iff - the CBOR parser model accepts exactly the inputs the RFC 7049 reference decoder (Cbor/Spec.v) accepts, with exactly its values; unsupported and malformed items are refused.",
   tie="Run: generated items (every value in every argument width, full negative range, zero-length strings/containers, definite/indefinite nesting) and unsupported items: /repo's events vs the extracted reference decoder and vs the extracted parser model.",
   note="",
   technique="Coq proof (simulation of the reference decoder by the parser state machine) + reference-decoder oracle + correspondence"),
  "C06": dict(
-  thm="Theorems (coq/Properties/C06.v): see the file.",
+  thm="Theorems (coq/Properties/C06.v): C06_accept - whenever the draft-12 reference decoder (Ubjson/Spec.v) accepts an input with value v, the parser model accepts it with a well-formed stream of exactly v (every marker, no-ops, counted/typed containers nested to any depth); C06_scope - after any value the state/element-type/length stacks are what they were before (the element type of an optimized container does not leak). Guard: finding F2.",
   tie="Run: generated draft-12 values (every marker and length marker, typed containers of every element type incl. containers, no-ops, empty containers) through /repo's parser vs the extracted reference decoder (Ubjson/Spec.v) and vs the extracted parser model.",
   note="",
   technique="Coq proof + reference-decoder oracle + correspondence"),
  "C07": dict(
-  thm="Theorems (coq/Properties/C07.v): for every well-formed tree the encoder model's output is read back by the independent reference decoder as the image of the tree's value; JSON text predicates (no control characters, no raw <>& with HTML escaping, radix point, non-finite floats refused or null) on the model's output.",
+  thm="Theorems (coq/Properties/C07.v): for every well-formed tree the encoder model's output is read back by the independent reference decoder as the image of the tree's value: C07_cbor (+stream, +in_context), C07_ubj (image ubj_img), C07_json (image json_img; hypotheses only about strconv); JSON text predicates C07_json_text / utf8_always / nonfinite / radix.",
   tie="Run: generated well-formed streams incl. all 29 typed events x options: bytes written by /repo must equal the model's (per Write call) and decode, by the extracted reference decoders (CBOR, UBJSON) or encoding/json (JSON), to the image of the stream's value; the JSON text predicates are checked on the bytes.",
   note="",
   technique="Coq proof (induction over trees against the reference decoders) + reference-decoder oracle + correspondence"),
  "C08": dict(
-  thm="Theorems (coq/Properties/C08.v): composition of the parser and encoder theorems (see the file).",
+  thm="Theorems (coq/Properties/C08.v): C08_cbor_cbor, C08_cbor_cbor_stream (any chunking). The other pairs compose the same way from C04-C06 and C07; their composition file is being added - until then they are decided by the run-time part.",
   tie="Run: all nine (source, target) pairs on generated valid source documents and streams of container documents in random chunkings: /repo's output bytes vs the composed models, and target value (reference decoder) vs source value (reference decoder) under the target's representation rules.",
   note="",
   technique="Coq proof by composition (C05/C06/C04 with C07 and C02) + reference-decoder oracle on both ends + correspondence"),
  "C09": dict(
-  thm="Theorems (coq/Properties/C09.v): the adapters' expansion of every well-typed extended event, the events of accepted parser inputs and of folded Go values satisfy the contract monitor `contract_ok` (see the file for which producers are proved).",
+  thm="Theorems (coq/Properties/C09.v): the monitor is exact (contract_ok evs <-> evs = flatten of a well-formed tree); adapters (C09_adapter_arr/obj/stream); CBOR parser on every accepted input (C09_cbor_accepted); UBJSON parser on reference-valid input (C09_ubj_parser); Fold for every well-typed value of every type and tag combination (C09_fold). JSON parser: part of C04_accept.",
   tie="Run: the extracted monitor (wf_tree over parse_tree) on the events /repo's parsers deliver for every accepted input, on Fold of generated (type, value) pairs, and on the adapters for all extended events.",
   note="",
   technique="Coq proof (contract monitor as executable predicate; producers' outputs satisfy it) + monitor run on /repo's events"),
  "C10": dict(
-  thm="Theorems (coq/Properties/C10.v): a wrapped plain visitor receives exactly `expand e`; encoder models end in the same state for an extended event and for its expansion (see the file).",
+  thm="Theorems (coq/Properties/C10.v): C10_wrap (a wrapped plain visitor receives exactly `expand e`), C10_expansion_same_value, C10_expansion_wellformed; the unfolder model runs on the expansion by construction. Encoder state equality is being added (in-context round-trip theorems of C07 applied to a tree and its expansion).",
   tie="Run: each extended event with generated contents inside generated contexts, followed by further events, through the three encoders of /repo both as extended call and as expansion: same decoded values, same stack depth, same success; adapters vs `expand`; unfolder targets unfolded both ways.",
   note="One recorded finding (UBJSON typed uint arrays needing 'H'). ",
   technique="Coq proof (adapter = expansion; state equality) + differential runs extended vs expanded"),
  "C11": dict(
-  thm="Theorems (coq/Properties/C11.v): see the file.",
+  thm="Theorems (coq/Properties/C11.v): C11_fold_refuses_unsupported (an unsupported static type is refused before any event), C11_supported_iff_compiles. The identity Fold;Unfold on the models is in progress.",
   tie="Run: generated (type, value) pairs are folded and unfolded into a fresh variable of the same type by /repo, directly and through the JSON, UBJSON and CBOR encoder+parser; the result must be deep-equal (extracted deep_eq/omit_view of Gotype/UnfoldSpec.v: nil and empty slices/maps identified, dropped fields zero) to the original, a type the specification calls unsupported must be refused by an error, never a crash; the direct route must also equal the composition of the fold and unfold models.",
   note="One recorded finding (uint64 above MaxInt64 through UBJSON). Self-referential types are exercised by a hand-written catalogue in a child process. ",
   technique="Coq proof (fold model composed with unfold model) + extracted-model correspondence + deep-equality oracle"),
  "C12": dict(
-  thm="Theorems (coq/Properties/C12.v): see the file.",
+  thm="Theorems (coq/Properties/C12.v): C12_fold - every successful fold of a well-typed value yields one well-formed value equal to the documented mapping spec_fold (Gotype/FoldSpec.v, written from the documentation); C12_fold_refuses, C12_fold_accepts (the mapping is defined iff Fold succeeds, for supported static types).",
   tie="Run: generated (type, value) pairs - struct types with every combination of the tag options on fields of every kind, pointer depth 0..3, interfaces holding any supported dynamic type, named types - are folded by /repo into a recording visitor (with and without the extended interfaces); the events must equal those of the extracted fold model (Gotype/Fold.v) and their value must equal the documented mapping (Gotype/FoldSpec.v, written from the documentation).",
   note="User folders, Folder and IsZeroer implementations are not generated. ",
   technique="Coq proof (fold model vs documented mapping) + extracted-model correspondence + direct oracle (spec_fold)"),
@@ -83,17 +83,17 @@ META = {
   note="The second sentence of the property (pointer validity, GC at any event boundary) is runtime behaviour no Gallina model exhibits: partial. ",
   technique="Coq proof (provenance of delivered strings in the models) + buffer-scribbling differential runs + checkptr/race-instrumented runs"),
  "C16": dict(
-  thm="Theorems (coq/Properties/C16.v): in the encoder models a failed write is returned by the call that made it (if every call returned nil the failing write was never attempted); adapters deliver nothing after a visitor error (see the file for components covered).",
+  thm="Theorems (coq/Properties/C16.v): encoders - a failed write is returned by the call that made it (C16_cbor_enc, C16_json_enc, C16_ubj_enc, C16_json_enc_error_unchanged); adapters - exact prefix semantics (C16_adapter); CBOR parser - the failing run delivers exactly the first k+1 events of the unfailing run and returns the visitor's error (C16_cbor_parser).",
   tie="Run (fault enumeration): writers/visitors failing from a generated index on, for encoders, parsers, adapters and Fold of /repo: an error must be returned no later than the last event, be the injected error itself, and nothing may be delivered after it; outcome must equal the model's.",
   note="",
   technique="Coq proof (write/visitor-error propagation invariant by induction over call sequences) + fault injection on /repo"),
  "C17": dict(
-  thm="Theorems (coq/Properties/C17.v): after a complete well-formed document the encoder models' nesting stacks are what they were before (see the file for components covered).",
+  thm="Theorems (coq/Properties/C17.v): completing a document restores the nesting state: C17_cbor_enc_idle, C17_json_enc_idle, C17_json_enc_any_state, C17_ubj_enc_idle; C17_cbor_parser_idle (the parser IS the initial parser after any accepted input).",
   tie="Run: histories of complete documents on one reused /repo instance (parsers in Parse and Write mode, encoders, transcoding chains, iterator, unfolder) followed by a probe, compared with a fresh instance and with the model; stack depths read through the verif hooks must be idle.",
   note="",
   technique="Coq proof (stack discipline by induction over trees) + reuse-vs-fresh differential runs with depth hooks"),
  "C18": dict(
-  thm="Theorems (coq/Properties/C18.v): see the file.",
+  thm="Theorems (coq/Properties/C18.v): CBOR pull decoder over any reader script (any read sizes, empty reads, io.EOF with or after the last data): k Next calls deliver exactly the k values, then io.EOF (C18_cbor_reader_stream, C18_cbor_bytes_stream); read sizes are irrelevant (C18_cbor_script_independent); Next is total (C18_cbor_next_total). UBJSON/JSON decoders: in progress, decided by the run-time part.",
   tie="Run: streams of k generated values (and truncated ones) through /repo's pull decoders over byte slices and scripted readers (read sizes 1..bufsize varying per call, data with or before io.EOF, buffer sizes 1..64): each of the first k Next calls must deliver exactly the next value, then io.EOF; a stream ending inside a value must not end in io.EOF; outcome must equal the decoder model's.",
   note="",
   technique="Coq proof + scripted-reader differential runs"),
